@@ -33,7 +33,7 @@ TEv == Rec[l]
 
 (* the recorder's atoms with their code points, its format strings with their pieces *)
 AtomCodesDef ==
-    [s \in {"a", "b", "c", "d", "ab", "B", "a b", "z", "10", "x", "f", "g", "h", "noun_phrase", "np4", "noun*", "no*", "*", "f*", "x*", "fg*", ",", ".", "?", "!", "%s", "<%s>", "x%s", "%s-%s", "%s%s", "a%sb%sc", "go", "<unprojectable>"} |->
+    [s \in {"a", "b", "c", "d", "ab", "B", "a b", "z", "10", "x", "9", "07", "f", "g", "h", "noun_phrase", "np4", "noun*", "no*", "*", "f*", "x*", "fg*", ",", ".", "?", "!", "%s", "<%s>", "x%s", "%s-%s", "%s%s", "a%sb%sc", "go", "<unprojectable>"} |->
        CASE s = "a" -> <<97>>
          [] s = "b" -> <<98>>
          [] s = "c" -> <<99>>
@@ -44,6 +44,8 @@ AtomCodesDef ==
          [] s = "z" -> <<122>>
          [] s = "10" -> <<49, 48>>
          [] s = "x" -> <<120>>
+         [] s = "9" -> <<57>>
+         [] s = "07" -> <<48, 55>>
          [] s = "f" -> <<102>>
          [] s = "g" -> <<103>>
          [] s = "h" -> <<104>>
